@@ -335,3 +335,29 @@ pub fn expected_verdict(gr: &Grammar, shell: &str) -> Option<Verdict> {
     }
     Some(v)
 }
+
+/// true if the grammar contains two differently spelled within-word expressions (after
+/// expansion) that denote the same labelled language, e.g. `--x=(a|b)` and `--x=(b|a)`
+pub fn has_respelled_word(gr: &Grammar, shell: &str) -> bool {
+    let mut r = Ref::new(gr, shell);
+    let Ok(e) = r.root(gr) else { return false };
+    fn collect(e: &E, out: &mut Vec<E>) {
+        match e {
+            E::Sub(_) => out.push(e.clone()),
+            E::Seq(c) | E::Alt(c) | E::Fb(c) => c.iter().for_each(|x| collect(x, out)),
+            E::Opt(x) | E::Many(x) | E::Def(x) => collect(x, out),
+            _ => {}
+        }
+    }
+    let mut words = vec![];
+    collect(&e, &mut words);
+    let mut by_lang: BTreeMap<String, BTreeSet<String>> = BTreeMap::new();
+    for w in &words {
+        let mut items = Items::default();
+        let E::Sub(parts) = w else { continue };
+        let Ok(rs) = parts.iter().map(|x| sem(x, 0, true, &mut items)).collect::<Result<Vec<_>, _>>() else { continue };
+        let Some(d) = dfa_of_regex(&cat_all(rs), &items) else { continue };
+        by_lang.entry(d.canonical().serialize()).or_default().insert(format!("{w:?}"));
+    }
+    by_lang.values().any(|s| s.len() > 1)
+}
